@@ -433,6 +433,9 @@ func optsFor(i int) (gen.Opts, string) {
 	case 5:
 		o.NonASCII, o.Risky = true, true
 		o.FullWidth = j%2 == 1
+		if j%3 == 0 {
+			o.SECs = []string{"COR", "IAT", "PPD"} // where the risky shapes live
+		}
 		return o, "latin1+risky"
 	case 6:
 		o.MaxBatches, o.MaxEntries, o.MaxAddenda = 5, 10, 5
